@@ -4,10 +4,13 @@
    Model: TsParse/TsParse.v; literals: Gen/TsParseConsts.v (regenerated from the source). *)
 From Coq Require Import List NArith.
 From Coq.Strings Require Import Byte.
+From GI Require Import Lib.GoSem Lib.GoSemState.
 From GI Require Import Lib.Bytes Gen.TsParseConsts TsParse.TsParse TsParse.TsSpec TsParse.TsShape
   TsParse.TsHolds TsParse.TsParseFacts TsParse.TsEnvFacts TsParse.TsRegexFacts TsParse.TsCmpFacts
   TsParse.TsHoldsFacts TsParse.TsShapeFacts TsParse.TsUtf8Facts TsParse.TsFold TsParse.TsFoldFacts
   TsParse.TsScript TsParse.TsScriptFacts.
+From GI Require Import Gen.TsParseSrc TsParse.SrcLib TsParse.SrcLibFacts TsParse.SrcFacts TsParse.SrcParseFacts
+  TsParse.SrcCmdEnvFacts TsParse.SrcLaws.
 Import ListNotations.
 
 (* any list of words survives quoting: nothing inside quotes is split, expanded or a comment
@@ -384,3 +387,193 @@ Print Assumptions C02_env_listing_shows_current.
 Theorem C02_history_holds : forall h vars cd0 k, history_holds h vars cd0 k = true.
 Proof. exact history_holds_true. Qed.
 Print Assumptions C02_history_holds.
+
+(* ---- fourth wave: the source itself.  Gen/TsParseSrc.v is envvarname and the methods Getenv, Setenv,
+   setEnv, expand, parse of TestScript (testscript/testscript.go) and its env command cmdEnv (testscript/cmd.go) translated into Gallina by harness/go2coq
+   on every run; ts_recv is the record of the fields line, env, envMap of the receiver, recv_of / env_of go
+   between it and the model's state; a method that assigns a field returns the receiver.  Each translated
+   function returns Ok of exactly what the model computes, for every input and every receiver: it never
+   panics (no index or slice expression of parse is out of range) and does not exhaust an iteration bound
+   greater than the length of the line; parse ends in Failed (the call of Fatalf) exactly where the model
+   says so. *)
+
+Theorem C02_source_getenv_eq : forall (r : ts_recv) (k : list byte),
+  src_TestScript_Getenv r k = Ok (getenv (env_of r) k).
+Proof. exact src_Getenv_eq. Qed.
+Print Assumptions C02_source_getenv_eq.
+
+Theorem C02_source_setenv_eq : forall (line : list byte) (st : ts_env) (k v : list byte),
+  src_TestScript_Setenv (recv_of line st) k v = Ok (recv_of line (setenv k v st)).
+Proof. exact src_Setenv_eq. Qed.
+Print Assumptions C02_source_setenv_eq.
+
+(* ... on a TestScript whose map was never made the store panics, in the translation as in Go *)
+Theorem C02_source_setenv_nil_map : forall (r : ts_recv) (k v : list byte),
+  r_envMap r = None -> src_TestScript_Setenv r k v = Panic.
+Proof. exact src_Setenv_nil_map. Qed.
+Print Assumptions C02_source_setenv_nil_map.
+
+Theorem C02_source_setup_eq : forall (r : ts_recv) (vars : list (list byte)),
+  src_TestScript_setEnv r vars = Ok (recv_of (r_line r) (setup_env vars)).
+Proof. exact src_setEnv_eq. Qed.
+Print Assumptions C02_source_setup_eq.
+
+(* os.Expand as the translation uses it (its mapping is a translated closure, a computation) is the
+   model's os_expand whenever the mapping returns *)
+Theorem C02_source_os_expand_pure : forall (f : list byte -> list byte) (m : list byte -> res (list byte)) s,
+  (forall k, m k = Ok (f k)) -> go_os_Expand s m = Ok (os_expand f s).
+Proof. exact go_os_Expand_pure. Qed.
+Print Assumptions C02_source_os_expand_pure.
+
+Theorem C02_source_expand_eq : forall (r : ts_recv) (s : list byte),
+  src_TestScript_expand r s = Ok (expand (env_of r) s).
+Proof. exact src_expand_eq. Qed.
+Print Assumptions C02_source_expand_eq.
+
+Theorem C02_source_parse_eq : forall (fuel : nat) (r : ts_recv) (line : list byte),
+  length line < fuel ->
+  src_TestScript_parse fuel r line =
+  Ok (match ts_parse (env_of r) line with
+      | Some ws => Done ({| r_line := line; r_env := r_env r; r_envMap := r_envMap r |}, ws)
+      | None => Failed
+      end).
+Proof. exact src_parse_eq. Qed.
+Print Assumptions C02_source_parse_eq.
+
+Theorem C02_source_parse_total : forall (fuel : nat) (r : ts_recv) (line : list byte),
+  length line < fuel ->
+  src_TestScript_parse fuel r line <> Panic /\ src_TestScript_parse fuel r line <> OutOfFuel.
+Proof. exact source_parse_total. Qed.
+Print Assumptions C02_source_parse_total.
+
+Theorem C02_source_parse_failed_iff : forall (fuel : nat) (r : ts_recv) (line : list byte),
+  length line < fuel ->
+  (src_TestScript_parse fuel r line = Ok Failed <-> ts_parse (env_of r) line = None).
+Proof. exact source_parse_failed_iff. Qed.
+Print Assumptions C02_source_parse_failed_iff.
+
+(* the laws, on the translated functions *)
+Theorem C02_source_parse_quote_words : forall (fuel : nat) (r : ts_recv) (ws : list (list byte)),
+  length (join_sp (map sq ws)) < fuel ->
+  src_TestScript_parse fuel r (join_sp (map sq ws)) = Ok (Done (with_line r (join_sp (map sq ws)), ws)).
+Proof. exact source_parse_quote_words. Qed.
+Print Assumptions C02_source_parse_quote_words.
+
+Theorem C02_source_parse_expand_once : forall (fuel : nat) (r : ts_recv) cmd pre k post v,
+  plain_word cmd -> plain_chunk pre -> plain_chunk post -> no_alnum_head post ->
+  valid_name k -> src_TestScript_Getenv r k = Ok v ->
+  length (cmd ++ SP :: pre ++ dollar :: k ++ post) < fuel ->
+  src_TestScript_parse fuel r (cmd ++ SP :: pre ++ dollar :: k ++ post)
+  = Ok (Done (with_line r (cmd ++ SP :: pre ++ dollar :: k ++ post), [cmd; pre ++ v ++ post])).
+Proof. exact source_parse_expand_once. Qed.
+Print Assumptions C02_source_parse_expand_once.
+
+Theorem C02_source_parse_expand_once_brace : forall (fuel : nat) (r : ts_recv) cmd pre k post v,
+  plain_word cmd -> plain_chunk pre -> plain_chunk post ->
+  brace_word k -> strip_suffix ts_regex_suffix k = None -> src_TestScript_Getenv r k = Ok v ->
+  length (cmd ++ SP :: pre ++ dollar :: lbrace :: k ++ rbrace :: post) < fuel ->
+  src_TestScript_parse fuel r (cmd ++ SP :: pre ++ dollar :: lbrace :: k ++ rbrace :: post)
+  = Ok (Done (with_line r (cmd ++ SP :: pre ++ dollar :: lbrace :: k ++ rbrace :: post), [cmd; pre ++ v ++ post])).
+Proof. exact source_parse_expand_once_brace. Qed.
+Print Assumptions C02_source_parse_expand_once_brace.
+
+Theorem C02_source_parse_expand_regex : forall (fuel : nat) (r : ts_recv) cmd pre k post v,
+  plain_word cmd -> plain_chunk pre -> plain_chunk post ->
+  brace_word k -> src_TestScript_Getenv r k = Ok v ->
+  length (cmd ++ SP :: pre ++ dollar :: lbrace :: (k ++ ts_regex_suffix) ++ rbrace :: post) < fuel ->
+  src_TestScript_parse fuel r (cmd ++ SP :: pre ++ dollar :: lbrace :: (k ++ ts_regex_suffix) ++ rbrace :: post)
+  = Ok (Done (with_line r (cmd ++ SP :: pre ++ dollar :: lbrace :: (k ++ ts_regex_suffix) ++ rbrace :: post),
+              [cmd; pre ++ quote_meta v ++ post])).
+Proof. exact source_parse_expand_regex. Qed.
+Print Assumptions C02_source_parse_expand_regex.
+
+Theorem C02_source_expand_regex_denotes : forall (fuel : nat) (r : ts_recv) cmd k v,
+  plain_word cmd -> brace_word k -> src_TestScript_Getenv r k = Ok v -> utf8_ok v = true ->
+  length (cmd ++ SP :: dollar :: lbrace :: (k ++ ts_regex_suffix) ++ [rbrace]) < fuel ->
+  exists p,
+    src_TestScript_parse fuel r (cmd ++ SP :: dollar :: lbrace :: (k ++ ts_regex_suffix) ++ [rbrace])
+    = Ok (Done (with_line r (cmd ++ SP :: dollar :: lbrace :: (k ++ ts_regex_suffix) ++ [rbrace]), [cmd; p]))
+    /\ re_literal p = Some v.
+Proof. exact source_expand_regex_denotes. Qed.
+Print Assumptions C02_source_expand_regex_denotes.
+
+Theorem C02_source_expand_text_var : forall (r : ts_recv) pre k post v,
+  no_dollar pre -> valid_name k -> no_alnum_head post -> src_TestScript_Getenv r k = Ok v ->
+  exists rest, src_TestScript_expand r post = Ok rest /\
+    src_TestScript_expand r (pre ++ dollar :: k ++ post) = Ok (pre ++ v ++ rest).
+Proof. exact source_expand_text_var. Qed.
+Print Assumptions C02_source_expand_text_var.
+
+Theorem C02_source_expand_text_regex : forall (r : ts_recv) pre k post v,
+  no_dollar pre -> brace_ok k -> src_TestScript_Getenv r k = Ok v ->
+  exists rest, src_TestScript_expand r post = Ok rest /\
+    src_TestScript_expand r (pre ++ dollar :: lbrace :: (k ++ ts_regex_suffix) ++ rbrace :: post)
+    = Ok (pre ++ quote_meta v ++ rest).
+Proof. exact source_expand_text_regex. Qed.
+Print Assumptions C02_source_expand_text_regex.
+
+(* after setEnv(vars) and any sequence of Setenv calls the translated Getenv returns the value of the last
+   call for the name; none of the calls panics *)
+Theorem C02_source_latest_wins : forall (r0 : ts_recv) vars pre k v post,
+  Forall (fun kv => fst kv <> k) post ->
+  exists r1 r2,
+    src_TestScript_setEnv r0 vars = Ok r1 /\
+    src_setenvs r1 (pre ++ (k, v) :: post) = Ok r2 /\
+    src_TestScript_Getenv r2 k = Ok v.
+Proof. exact source_latest_wins. Qed.
+Print Assumptions C02_source_latest_wins.
+
+Theorem C02_source_unassigned_keeps : forall line st kvs k,
+  Forall (fun kv => fst kv <> k) kvs ->
+  exists r2, src_setenvs (recv_of line st) kvs = Ok r2 /\
+    src_TestScript_Getenv r2 k = src_TestScript_Getenv (recv_of line st) k.
+Proof. exact source_unassigned_keeps. Qed.
+Print Assumptions C02_source_unassigned_keeps.
+
+Theorem C02_source_envmap_agrees_with_list : forall (r0 : ts_recv) vars kvs,
+  Forall (fun kv => no_sep (fst kv)) kvs ->
+  exists r1 r2,
+    src_TestScript_setEnv r0 vars = Ok r1 /\ src_setenvs r1 kvs = Ok r2 /\ consistent (env_of r2).
+Proof. exact source_envmap_agrees_with_list. Qed.
+Print Assumptions C02_source_envmap_agrees_with_list.
+
+(* a value stored by the translated Setenv is what the translated parse inserts, once *)
+Theorem C02_source_setenv_then_parse : forall (fuel : nat) line0 st cmd pre k post v,
+  plain_word cmd -> plain_chunk pre -> plain_chunk post -> no_alnum_head post -> valid_name k ->
+  length (cmd ++ SP :: pre ++ dollar :: k ++ post) < fuel ->
+  exists r1,
+    src_TestScript_Setenv (recv_of line0 st) k v = Ok r1 /\
+    src_TestScript_parse fuel r1 (cmd ++ SP :: pre ++ dollar :: k ++ post)
+    = Ok (Done (with_line r1 (cmd ++ SP :: pre ++ dollar :: k ++ post), [cmd; pre ++ v ++ post])).
+Proof. exact source_setenv_then_parse. Qed.
+Print Assumptions C02_source_setenv_then_parse.
+
+(* the env command as translated: with arguments it is the model's cmd_env, every K=V going through the
+   translated Setenv; without arguments it leaves line, env and envMap alone and panics exactly where the
+   model's listing is None (an entry of ts.env without the separator: kv[:-1] in the Go code); negated it
+   ends in Fatalf.  What it prints (Logf) is outside the translated state. *)
+Theorem C02_source_cmdenv_eq : forall (line : list byte) (st : ts_env) (neg : bool) (args : list (list byte)),
+  src_TestScript_cmdEnv (recv_of line st) neg args =
+  if neg then Ok Failed
+  else match args with
+       | [] => match env_listing st with
+               | Some _ => Ok (Done (recv_of line st))
+               | None => Panic
+               end
+       | _ :: _ => Ok (Done (recv_of line (cmd_env args st)))
+       end.
+Proof. exact src_cmdEnv_eq. Qed.
+Print Assumptions C02_source_cmdenv_eq.
+
+Theorem C02_source_env_latest_wins : forall line st pre k v post,
+  no_sep k -> Forall (not_assign k) post ->
+  exists r', src_TestScript_cmdEnv (recv_of line st) false (pre ++ (k ++ ts_env_sep :: v) :: post) = Ok (Done r') /\
+    src_TestScript_Getenv r' k = Ok v.
+Proof. exact source_env_latest_wins. Qed.
+Print Assumptions C02_source_env_latest_wins.
+
+Theorem C02_source_env_listing_identity : forall line st,
+  forallb has_kv (env_list st) = true ->
+  src_TestScript_cmdEnv (recv_of line st) false [] = Ok (Done (recv_of line st)).
+Proof. exact src_cmdEnv_listing_identity. Qed.
+Print Assumptions C02_source_env_listing_identity.
